@@ -360,7 +360,16 @@ fn main() {
                 let mut ch2 = Chooser::new(choices.clone());
                 let again = vcore::catch(std::panic::AssertUnwindSafe(|| run_one(&cfg, &mut ch2)));
                 let same = match &again {
-                    Ok((v2, run2)) => run2.trace == run.trace && v2.is_ok() == verdict.is_ok() && ch2.diverged.is_none(),
+                    // a passing execution must replay with an identical observation trace; a violating one must violate again
+                    // with the same key (which caller is hit may legitimately depend on the driver's own hash order)
+                    Ok((v2, run2)) => {
+                        ch2.diverged.is_none()
+                            && match (&verdict, v2) {
+                                (Ok(()), Ok(())) => run2.trace == run.trace,
+                                (Err(a), Err(b)) => split_key(a).0 == split_key(b).0,
+                                _ => false,
+                            }
+                    }
                     Err(_) => verdict.as_ref().err().map(|e| e.starts_with("panic|")).unwrap_or(false),
                 };
                 if !same {
